@@ -8,7 +8,8 @@ from ..common import coq_string, coq_list
 from . import libcommon
 
 THEOREMS = ["c10_body_routes_to_the_same_method", "c10_executor_builder", "c10_instantiate_builder"]
-THEOREMS_T = ["c10_translated_instantiate_builder", "c10_translated_builder_setters"]
+THEOREMS_T = ["c10_translated_instantiate_builder", "c10_translated_builder_setters", "c10_translated_executor_path",
+              "c10_translated_admin_helpers"]
 
 STR = ["", "a", "owner1", "quo\"te", "x y", "unié", "long" * 20]
 
